@@ -293,7 +293,28 @@ fn run_case(rng: &mut Rng, codes: &Codes, hist: &mut BTreeMap<&'static str, u64>
             lines.push(line.trim_end().to_owned());
             changes.insert(addr(a), account);
         }
-        let _accesses = idb.finish(&changes);
+        let accesses = idb.finish(&changes);
+        // the write set handed to the scheduler must be exactly the set of published locations
+        // (it is what a re-execution uses to remove entries it no longer writes)
+        {
+            let mut ws: Vec<String> = accesses
+                .write_set
+                .iter()
+                .filter_map(|loc| {
+                    let a = (0..N_ADDR).find(|a| addr(*a) == loc.address)?;
+                    Some(match loc.kind {
+                        0 => format!("B{a}"),
+                        1 => format!("S{a}.{}", loc.slot),
+                        2 => format!("R{a}"),
+                        _ => format!("C{a}"),
+                    })
+                })
+                .collect();
+            ws.sort();
+            lines.push(format!("ws {i}"));
+            queries.push(format!("ws {i}"));
+            expect.push(ws.join(" "));
+        }
         state.commit(changes);
     }
     // a reader after the whole block
@@ -383,7 +404,7 @@ pub fn cmd_repr(args: &Args) -> J {
                     let m = model.get(k).copied().unwrap_or("<missing>");
                     reads += 1;
                     let e = &c.expect[k];
-                    let same = if q == "dump" {
+                    let same = if q == "dump" || q.starts_with("ws ") {
                         let mut toks: Vec<&str> = m.split(' ').filter(|t| !t.is_empty()).collect();
                         toks.sort();
                         toks.join(" ") == *e
